@@ -62,7 +62,19 @@ func VerifC19Confined() {
 	}
 	frame := vCtl(0x1210, phone, 1, v1210Body(d, []vFile{f}, fill))
 	vAssumeNoEscape(frame)
-	conn := &vConn{reads: [][]byte{frame}, errAt: -1}
+	reads := [][]byte{frame}
+	// the session either ends after the announcement, or uploads the whole file and signals its
+	// end (0x1211, the chunk, 0x1212) before it ends: every event the handler sees is covered
+	full := len(nameB) <= 50 && vrt_Choose("fullUpload", 2) == 1
+	if full {
+		f1211 := vCtl(0x1211, phone, 2, v1211Body(f))
+		vAssumeNoEscape(f1211)
+		f1212 := vCtl(0x1212, phone, 3, v1211Body(f))
+		vAssumeNoEscape(f1212)
+		reads = append(reads, f1211, vChunk(d, f, 0, 1), f1212)
+	}
+	vrt_Cover("full-upload", full)
+	conn := &vConn{reads: reads, errAt: -1}
 	c := newConnection(conn, d, nil, &fileEvent{})
 	c.run()
 	phoneStr := ""
@@ -88,6 +100,6 @@ func VerifC19Confined() {
 		vrt_Class("kfC19Traversal", true)
 		vrt_Assert(inside, "a file was written outside the terminal's directory")
 	}
-	vrt_Cover("wrote-a-file", writes == 1)
+	vrt_Cover("wrote-a-file", writes >= 1)
 	vrt_Cover("name-with-slash", nameB[0] == '/' || (n > 1 && nameB[1] == '/'))
 }
